@@ -12,6 +12,10 @@ def StepRes.all? (r : StepRes) (p : Status → Bool) : Bool :=
   | .ok s => p s
   | .raise _ => true
 
+def StepRes.isOk : StepRes → Bool
+  | .ok _ => true
+  | .raise _ => false
+
 theorem StepRes.all?_ok {r : StepRes} {p : Status → Bool} (h : r.all? p = true) {s : Status}
     (hr : r = .ok s) : p s = true := by
   subst hr; exact h
